@@ -413,6 +413,139 @@ def coq_lits(case, imp):
     return lits
 
 
+# --------------------------------------------------------------------------- histories: ONE long-lived Aggregated
+def activated_list(fl, case, row=None):
+    return build_fuzzy(fl, case, row).terms
+
+
+class History:
+    """One Aggregated object and one defuzzifier object per (defuzzifier, type), kept for the whole run: before every
+    defuzzification the contents are replaced by the next fuzzy output (clear + extend / list assignment alternate; the
+    aggregation operator is replaced too).  The property is about the fuzzy set GIVEN, so the results must be those of a
+    freshly built object with the same contents (which are tied to the model and the oracle)."""
+
+    def __init__(self, fl):
+        self.fuzzy = fl.Aggregated("out", 0.0, 1.0)
+        self.inst = {(avg, ty): make_defuzz(fl, avg, ty) for avg, ty in CONFIGS}
+        self.prev = None
+        self.steps = 0
+        self.calls = 0
+
+    @staticmethod
+    def load(fl, fuzzy, case, step):
+        set_inputs(case)
+        acts = activated_list(fl, case)
+        if step % 2 == 0:
+            fuzzy.clear()
+            fuzzy.terms.extend(acts)
+        else:
+            fuzzy.terms = acts
+        fuzzy.aggregation = make_agg(fl, case.agg)
+
+    def step(self, fl, case, imp, verdict):
+        """returns the number of violations"""
+        n = 0
+        self.load(fl, self.fuzzy, case, self.steps)
+        self.steps += 1
+        bad = []
+        for ci, (avg, ty) in enumerate(CONFIGS):
+            e, y = defuzz(fl, self.fuzzy, avg, ty, case.rows, self.inst[(avg, ty)])
+            self.calls += 1
+            fe, fy = imp["res"][ci]
+            if e != fe or (e is None and not all(vlib.same_float(a, b) for a, b in zip(y, fy))):
+                bad.append((avg, ty, e or y, fe or fy))
+        got = self.fuzzy.grouped_terms()
+        want = imp["groups"]
+        if list(got) != [g["name"] for g in want] or any(not all(vlib.same_float(a, b) for a, b in zip(rows_of(got[g["name"]].degree, case.rows), g["deg"])) for g in want):
+            verdict.add_violation("grouped_terms:depends-on-earlier-call", f"grouped_terms() of a reused Aggregated now holding {describe(case, 0)} differs from a fresh object with the same contents",
+                                  {"steps": [history_step(case)]})
+            n += 1
+        for avg, ty, g, w in bad:
+            dname = f"{'WeightedAverage' if avg else 'WeightedSum'}({TYPES[ty]})"
+            # the shortest history: previous contents, then the current ones, on a brand-new object
+            hist = [self.prev, case] if self.prev is not None else [case]
+            f2 = fl.Aggregated("out", 0.0, 1.0)
+            d2 = make_defuzz(fl, avg, ty)
+            e2 = y2 = None
+            for k, c in enumerate(hist):
+                self.load(fl, f2, c, k)
+                e2, y2 = defuzz(fl, f2, avg, ty, c.rows, d2)
+            fe, fy = imp["res"][CONFIGS.index((avg, ty))]
+            short = e2 != fe or (e2 is None and not all(vlib.same_float(a, b) for a, b in zip(y2, fy)))
+            what = (f"{dname}: ONE Aggregated object and ONE defuzzifier, defuzzified after each replacement of the activated terms: "
+                    + (" ; then ".join(f"terms := {describe(c, 0)} -> {'?' if k < len(hist) - 1 else (e2 or y2)!r}" for k, c in enumerate(hist)) if short
+                       else f"(after {self.steps - 1} earlier fuzzy outputs) terms := {describe(case, 0)} -> {g!r}")
+                    + f"; a freshly built Aggregated with the last contents gives {w!r}")
+            verdict.add_violation("weighted:depends-on-earlier-call", what,
+                                  {"steps": [history_step(c) for c in (hist if short else [case])], "defuzzifier": "WeightedAverage" if avg else "WeightedSum", "type": TYPES[ty],
+                                   "reproduced_by_these_steps_alone": bool(short)})
+            n += 1
+        if bad:  # start again from clean objects, so that one defect is not reported for every later output
+            self.fuzzy = fl.Aggregated("out", 0.0, 1.0)
+            self.inst = {(avg, ty): make_defuzz(fl, avg, ty) for avg, ty in CONFIGS}
+        self.prev = case
+        return n
+
+
+def history_step(case):
+    return {"terms": [{"name": t.name, "class": t.cls, "args": t.args, "extra": t.extra} for t in case.pool],
+            "activations": [[i, d] for i, d, _ in case.acts], "aggregation": case.agg, "inputs": case.inputs, "batch": case.batch}
+
+
+ENGINE_OUT = [("k1", "Constant", [2.0]), ("k2", "Constant", [5.0]), ("up", "Ramp", [0.0, 10.0]), ("down", "Ramp", [10.0, 0.0]),
+              ("t1", "Triangle", [0.0, 3.0, 6.0]), ("t2", "Gaussian", [7.0, 1.5])]
+
+
+def build_history_engine(fl, avg, ty, aggregation, width):
+    """input x with six triangles centred at (2k+1)/12, rule k: `if x is s_k then y is o_k` with o_0, o_1 constants,
+    o_2, o_3 monotonic, o_4, o_5 non-monotonic; Threshold(> 0) activation, so only the rules that fire add activations."""
+    ins = [fl.Triangle(f"s{k}", (2 * k + 1) / 12 - width, (2 * k + 1) / 12, (2 * k + 1) / 12 + width) for k in range(6)]
+    outs = [getattr(fl, cls)(name, *args) for name, cls, args in ENGINE_OUT]
+    return fl.Engine("history", input_variables=[fl.InputVariable("x", minimum=0.0, maximum=1.0, terms=ins)],
+                     output_variables=[fl.OutputVariable("y", minimum=0.0, maximum=10.0, default_value=math.nan, aggregation=make_agg(fl, aggregation),
+                                                         defuzzifier=make_defuzz(fl, avg, ty), terms=outs)],
+                     rule_blocks=[fl.RuleBlock("", conjunction=None, disjunction=None, implication=None, activation=fl.Threshold(">", 0.0),
+                                               rules=[fl.Rule.create(f"if x is s{k} then y is {ENGINE_OUT[k][0]}") for k in range(6)])])
+
+
+def engine_histories(fl, rng, verdict, count):
+    """Engine.process() repeatedly on ONE engine (its OutputVariable.fuzzy is one long-lived Aggregated, cleared and refilled):
+    every output value must be what a fresh defuzzifier gives on a fresh Aggregated with the activations the step produced."""
+    n = calls = 0
+    for _ in range(count):
+        if n >= 3:  # enough concrete engine histories
+            break
+        avg, ty = rng.choice(CONFIGS)
+        agg = rng.choice(["", "Maximum", "AlgebraicSum", "UnboundedSum"])
+        width = rng.choice([1 / 16, 1 / 12, 1 / 8])
+        eng = build_history_engine(fl, avg, ty, agg, width)
+        out = eng.output_variables[0]
+        xs = [rng.choice([(2 * rng.randrange(6) + 1) / 12 + rng.uniform(-0.05, 0.05), rng.random(), 2.0]) for _ in range(rng.randint(3, 7))]
+        trace = []
+        for x in xs:
+            eng.input_variables[0].value = x
+            try:
+                eng.process()
+                got = (None, float(out.value))
+            except (TypeError, RuntimeError, ValueError) as ex:
+                got = (type(ex).__name__, None)
+            calls += 1
+            fresh = fl.Aggregated("y", 0.0, 10.0, make_agg(fl, agg), [fl.Activated(a.term, a.degree, a.implication) for a in out.fuzzy.terms])
+            e, y = defuzz(fl, fresh, avg, ty, 1)
+            want = (e, None if e else y[0])
+            trace.append((x, out.fuzzy_value(), got, want))
+            if got[0] != want[0] or (got[0] is None and not vlib.same_float(got[1], want[1])):
+                dname = f"{'WeightedAverage' if avg else 'WeightedSum'}({TYPES[ty]})"
+                what = (f"engine (x with six triangles of half-width {width!r} at (2k+1)/12; y with {', '.join(f'{c}({n_!r})' for n_, c, _ in ENGINE_OUT)}; rules `if x is s_k then y is o_k`; "
+                        f"Threshold(>0) activation; aggregation {agg or None}; {dname}): process() for x = " + ", ".join(f"{t[0]!r} -> y = {(t[2][0] or t[2][1])!r} [fuzzy {t[1]}]" for t in trace)
+                        + f"; the last fuzzy output defuzzified on its own gives {(want[0] or want[1])!r}")
+                verdict.add_violation("weighted:depends-on-earlier-call", what, {"engine": {"width": width, "aggregation": agg}, "xs": [t[0] for t in trace],
+                                                                                "defuzzifier": "WeightedAverage" if avg else "WeightedSum", "type": TYPES[ty]})
+                n += 1
+                break
+    return n, calls
+
+
 # --------------------------------------------------------------------------- direct oracle
 def san(d):
     if d != d or d == -math.inf:
@@ -648,9 +781,13 @@ def run(ctx, build, verdict, ev):
         dist[k] = dist.get(k, 0) + 1
 
     nviol += report_constructions()  # the constructions made so far, before any fuzzy output is processed
+    history = History(fl)
     with np.errstate(all="ignore"):
+        eh_viol, eh_calls = engine_histories(fl, rng, verdict, ctx.n(150, 3000))
+        nviol += eh_viol
         for ci, case in enumerate(cases):
             imp = run_impl(fl, case, shared)
+            nviol += history.step(fl, case, imp, verdict)
             for avg, ty, what in imp["mutated"]:
                 verdict.add_violation("defuzzify:mutates", f"{'WeightedAverage' if avg else 'WeightedSum'}({TYPES[ty]}).defuzzify({describe(case, 0)}): {what}", replay_dict(case, 0, avg, ty))
                 nviol += 1
@@ -716,11 +853,14 @@ def run(ctx, build, verdict, ev):
                  "engine) / Tsukamoto (6 monotonic shapes) / inverse (Triangle, Gaussian) / mixed; degrees 0, 1, k/8, random, NaN, +-inf, subnormal, -0.0; aggregation uniform over "
                  "9 S-norms + lambda + none; 35% batch of 2-4 rows (array and scalar degrees mixed); each output x {WeightedAverage, WeightedSum} x {Automatic, TakagiSugeno, "
                  "Tsukamoto} + grouped_terms + activation_degree, every row compared exactly with the Coq model; plus directed two/three-activation outputs with a zero-degree "
-                 "term of every class; the kind is fixed in every way the API offers (string, enum member, keyword, configure, attribute assignment, FLL importer, printed "
+                 "term of every class; HISTORIES: one long-lived Aggregated (and one defuzzifier per configuration) is refilled with every output in turn (clear+extend / assignment) "
+                 "and must give the results of the freshly built object bit for bit, and engines with Threshold activation are processed repeatedly with inputs firing rules "
+                 "whose consequents are of different kinds; the kind is fixed in every way the API offers (string, enum member, keyword, configure, attribute assignment, FLL importer, printed "
                  "constructor), rotating, and `type` is checked after construction; ONE defuzzifier instance per (defuzzifier, type) is reused across all the outputs (kinds follow each other in random order) and compared with the "
                  "stateless model and with fresh instances; non-trivial = distinct outputs with >= 2 activations and a finite result")
     c["distribution"] = dist
     c["constructions"] = dict(CONSTRUCTION["count"])
+    c["history"] = {"one_aggregated_object_refilled": history.steps, "defuzzify_calls_on_it": history.calls, "engine_process_calls": eh_calls}
     c["oracle_stats"] = stats
     c["correspondence_mismatches"] = len(mism)
     c["oracle_violations"] = nviol
@@ -740,6 +880,14 @@ def run(ctx, build, verdict, ev):
                           "oracle skips the closed-form comparison when a positive-weight z is not finite (degree above the term's height, Sigmoid at its height) or the total weight is below 1e-250"]
 
 
+def rebuild_term(fl, t, eng):
+    if t["class"] == "Linear":
+        return fl.Linear(t["name"], t["args"], None if t["extra"] == "no-engine" else eng)
+    if t["class"] == "Function":
+        return fl.Function(t["name"], t["extra"].replace(" (not loaded)", ""), eng, load="(not loaded)" not in t["extra"])
+    return getattr(fl, t["class"])(t["name"], *t["args"])
+
+
 def replay(ctx, data):
     import fuzzylite as fl
 
@@ -751,20 +899,45 @@ def replay(ctx, data):
             CONSTRUCTION.update(n=0, issues=[], count={})
             d = make_defuzz(fl, r["defuzzifier"] == "WeightedAverage", TYPES.index(r["type"]), r["construct"])
             print("  now:", repr(d), "type =", d.type)
+        if "steps" in r and "defuzzifier" in r:
+            fuzzy = fl.Aggregated("out", 0.0, 1.0)
+            d = getattr(fl, r["defuzzifier"])(r["type"])
+            for k, st in enumerate(r["steps"]):
+                eng = make_engine(fl)
+                for var, val in zip(eng.input_variables, st["inputs"]):
+                    var.value = np.array(val, dtype=float) if st["batch"] else float(val[0])
+                terms = [rebuild_term(fl, t, eng) for t in st["terms"]]
+                acts = [fl.Activated(terms[i], np.array(dg, dtype=float) if isinstance(dg, list) else dg) for i, dg in st["activations"]]
+                fuzzy.clear()
+                fuzzy.terms.extend(acts)
+                fuzzy.aggregation = make_agg(fl, st["aggregation"])
+                fresh = fl.Aggregated("out", 0.0, 1.0, make_agg(fl, st["aggregation"]), [fl.Activated(a.term, a.degree) for a in acts])
+                with np.errstate(all="ignore"):
+                    outs = []
+                    for f, dd in ((fuzzy, d), (fresh, getattr(fl, r["defuzzifier"])(r["type"]))):
+                        try:
+                            outs.append(dd.defuzzify(f))
+                        except Exception as ex:  # noqa
+                            outs.append(type(ex).__name__)
+                print(f"  now: step {k}: reused object -> {outs[0]}   fresh object -> {outs[1]}")
+            continue
+        if "engine" in r:
+            CONSTRUCTION.update(n=0, issues=[], count={})
+            eng = build_history_engine(fl, r["defuzzifier"] == "WeightedAverage", TYPES.index(r["type"]), r["engine"]["aggregation"], r["engine"]["width"])
+            for x in r["xs"]:
+                eng.input_variables[0].value = x
+                try:
+                    eng.process()
+                    print(f"  now: x = {x!r} -> y = {float(eng.output_variables[0].value)!r}  [{eng.output_variables[0].fuzzy_value()}]")
+                except Exception as ex:  # noqa
+                    print(f"  now: x = {x!r} -> {type(ex).__name__}")
+            continue
         if "terms" not in r:
             continue
         eng = make_engine(fl)
         for var, val in zip(eng.input_variables, r["inputs"]):
             var.value = val
-        terms = []
-        for t in r["terms"]:
-            if t["class"] == "Linear":
-                terms.append(fl.Linear(t["name"], t["args"], None if t["extra"] == "no-engine" else eng))
-            elif t["class"] == "Function":
-                formula = t["extra"].replace(" (not loaded)", "")
-                terms.append(fl.Function(t["name"], formula, eng, load="(not loaded)" not in t["extra"]))
-            else:
-                terms.append(getattr(fl, t["class"])(t["name"], *t["args"]))
+        terms = [rebuild_term(fl, t, eng) for t in r["terms"]]
         fuzzy = fl.Aggregated("out", 0.0, 1.0, make_agg(fl, r["aggregation"]), [fl.Activated(terms[i], d) for i, d in r["activations"]])
         d = getattr(fl, r["defuzzifier"])(r["type"])
         with np.errstate(all="ignore"):
